@@ -52,7 +52,7 @@ out.append('* `C11-e1`: a short all-in lowers the minimum raise, so a player who
 out.append('* `C04-e1`: an overflow in the below-the-wager test of `Raise` for levels next to `MinInt64`. The action (raise) was offered, so C04 is not concerned; it is C12\'s "a request below the current wager is refused", and **C12 catches the change** (`below-wager-not-refused/huge`).')
 out.append('')
 out.append('### 10.3 Changes that keep every property (false-alarm experiment)\n')
-out.append('Six sub-agents were given the 20 property statements and asked for the opposite of a seeded defect: realistic, non-trivial changes of behaviour or internal structure that keep all properties true (`/verif/benign/b1..b6`: patch and the agent\'s notes). `tools/run_benign.sh` applies each in a scratch worktree and runs the checks of the touched area; **every check must stay silent**.\n')
+out.append('Twelve sub-agents (two rounds of six) were given the 20 property statements and asked for the opposite of a seeded defect: realistic, non-trivial changes of behaviour or internal structure that keep all properties true (`/verif/benign/b1..b12`: patch and the agent\'s notes). `tools/run_benign.sh` applies each in a scratch worktree and runs the checks of the touched area; **every check must stay silent**.\n')
 out.append('| patch | area | what changes (all of it allowed by the properties) |')
 out.append('|---|---|---|')
 out.append('| b1 | betting engine | VPIP bookkeeping; new error values for wrong-phase operations; pots republished after the blinds and at every turn; `last_action` records what was really posted / an over-sized bet as all-in; first-to-act lookup refactored |')
@@ -61,8 +61,14 @@ out.append('| b3 | settlement | ranking rebuilt (ties in seat order); one odd-ch
 out.append('| b4 | seat manager | `Join(any)` deterministic; out-of-range ids answered with another error value; `Reset()` re-binds the positions; position logic rewritten as one ring walk; `GetNormalizeSeats` wraps |')
 out.append('| b5 | regulator | deterministic choice of the table to top up; release count from one scan; requirement sheet rewritten; one queue-pop helper; a releasing table clears its `Required` |')
 out.append('| b6 | evaluator | completely different (bit-packed) score encoding with the same order; reported cards ordered by significance; which of several equal selections is reported; lexicographic candidate enumeration; a correctly keyed memo cache |')
+out.append('| b7 | engine plumbing | players kept in a seat-indexed slice, `LoadState`/`ApplyOptions` rebuild from scratch; `GetPlayers()` in seat order; `ApplyOptions` copies the deck; event/`updated_at` bookkeeping; new error values |')
+out.append('| b8 | actions (`player.go`) | one commit-chips helper; an all-in that is a full raise makes the player the current raiser; negative amounts clamped; action tail shared |')
+out.append('| b9 | views, backend | views share one helper and mask with `nil` instead of `[]`; a folded viewer no longer gets an evaluation of the own dead hand; backend clones by a manual deep copy; one generic `apply`; errors wrapped in `*BackendError` |')
+out.append('| b10 | seat manager | deterministic `Join(any)` and `GetAvailableSeats`; all sat-in waiting players are let in when fewer than two can play; `Reset` empties seats in place; `ApplyStates` resizes; setters refuse out-of-range seats |')
+out.append('| b11 | regulator | emptiest table topped up first; exact `Required` bookkeeping; release/break-up policy details; queue handling |')
+out.append('| b12 | deck, dealing | new-pack deck order; Fisher-Yates on a private source; a private copy of the deck is shuffled; hole cards dealt one at a time round the table |')
 out.append('')
-out.append('Result: silent on all six (quick tier), also after the later strengthenings of the checks. Two oracles were loosened *because of this experiment\'s reasoning, before it ran*: C01 accepts pots republished between the fixed publication points, C04\'s carried-out-action clause only judges action names of the offer vocabulary; C14 accepts hole cards handed out before the first street.')
+out.append('Result: silent on all twelve (quick tier), with one exception that was a false alarm of mine and is corrected: b9 blanks the *viewer\'s own* hand evaluation once the viewer has folded, and C15\'s oracle demanded the viewer\'s whole own entry unchanged. The statement keeps "the viewer\'s own cards and all public information"; an evaluation of a folded hand is neither (it is hidden from everybody else even after the close), so the oracle now accepts the viewer\'s own evaluation either unchanged or absent - anything else in the own entry, and an *altered* evaluation, still alarm. All seven seeded C15 changes are still caught after the correction. Silent on the first six (quick tier), also after the later strengthenings of the checks. Two oracles were loosened *because of this experiment\'s reasoning, before it ran*: C01 accepts pots republished between the fixed publication points, C04\'s carried-out-action clause only judges action names of the offer vocabulary; C14 accepts hole cards handed out before the first street.')
 out.append('')
 out.append('### 10.4 Silence on the unchanged tree\n')
 out.append('Quick tier at `VERIF_SEED` 1..7 for all 20 properties (140 runs, machine busy with other runs): 140 x OK. Thorough tier at seed 1: 20 x OK (1-11 min each under load). `vp check` (fresh copy of the sandbox, `setup_cmd`, every quick command): nothing needed attention.')
